@@ -71,6 +71,7 @@ type outcome struct {
 	Value   string `json:"value,omitempty"`
 	Stack   string `json:"stack,omitempty"`
 	Elapsed int64  `json:"elapsed_us"`
+	Slow    bool   `json:"slow,omitempty"` // replied, but only after the deadline (within the grace period)
 }
 
 const repoPrefix = "github.com/nuts-foundation/nuts-node/"
@@ -148,6 +149,17 @@ func guarded(deadline time.Duration, f func() (bool, string)) outcome {
 		o.Elapsed = time.Since(t0).Microseconds()
 		return o
 	case <-timer.C:
+	}
+	// deadline missed. On a busy machine a slow call still replies: give it a grace period before calling it a hang
+	// (a real non-termination never replies; the Python side re-runs a reported hang alone once more).
+	grace := time.NewTimer(2 * deadline)
+	defer grace.Stop()
+	select {
+	case o := <-done:
+		o.Elapsed = time.Since(t0).Microseconds()
+		o.Slow = true
+		return o
+	case <-grace.C:
 		return outcome{Kind: "hang", Site: "deadline", Elapsed: time.Since(t0).Microseconds()}
 	}
 }
@@ -213,7 +225,11 @@ type caseResult struct {
 	Distinct int              `json:"distinct_inputs"`
 	Outcomes []string         `json:"outcomes,omitempty"` // calibration only
 	WallMs   int64            `json:"wall_ms"`
+	Slow     int              `json:"slow_calls"` // replied after the deadline but within the grace period
 }
+
+// hung counts calls that missed their deadline: their goroutines are abandoned and keep running (and may keep allocating)
+var hung int
 
 type world struct {
 	t        *testing.T
@@ -359,8 +375,16 @@ func (w *world) runCase(c caseSpec, in driverInput) caseResult {
 		res.Error = "harness: concretiser failed: " + g.Kind + " " + g.Value + " " + g.Stack
 		return res
 	}
+	if hung >= 6 {
+		res.Error = "skipped: too many calls of this process never returned (abandoned goroutines keep running)"
+		return res
+	}
 	seen := map[[32]byte]bool{}
+	hangsHere := 0
 	for k, ci := range inputs {
+		if hangsHere >= 2 || hung >= 6 {
+			break // the finding is recorded; do not pile up spinning goroutines
+		}
 		hh := sha256.Sum256(ci.input)
 		if !seen[hh] {
 			seen[hh] = true
@@ -379,6 +403,9 @@ func (w *world) runCase(c caseSpec, in driverInput) caseResult {
 		input := ci.input
 		o := guarded(w.deadline, func() (bool, string) { return e.call(input) })
 		res.Calls++
+		if o.Slow {
+			res.Slow++
+		}
 		if o.Elapsed > res.MaxUs {
 			res.MaxUs = o.Elapsed
 		}
@@ -408,6 +435,10 @@ func (w *world) runCase(c caseSpec, in driverInput) caseResult {
 				}
 			}
 		default:
+			if o.Kind == "hang" {
+				hung++
+				hangsHere++
+			}
 			// no reply event: the trace is not a behaviour of Robust.tla (Totality)
 			if e.saveCtx != nil {
 				ctx = e.saveCtx()
